@@ -138,6 +138,10 @@ class LiteralEvaluator:
 			True = 正常
 		"""
 		quotes = ['"', "'"]
+		long_quotes = ['"""', "'''"]
+		if len(string) >= 6 and string[:3] in long_quotes and string[-3:] == string[:3]:
+			return False
+
 		return len(string) >= 2 and string[0] in quotes and string[-1] in quotes
 	
 	def _cat(self, left: str, right: str) -> str:
@@ -210,6 +214,9 @@ class LiteralEvaluator:
 		return float(node.tokens)
 
 	def on_string(self, node: defs.String) -> Evaluator.Value:
+		if not self._allow_string(node.tokens):
+			raise Errors.OperationNotAllowed(node, node.tokens)
+
 		return node.tokens
 
 	def on_or_bitwise(self, node: defs.OrBitwise, elements: list[Evaluator.Value]) -> Evaluator.Value:
